@@ -23,7 +23,10 @@ def measure(fn, cap):
 
     def on_line(code, line):
         st['events'] += 1
-        if st['events'] > cap:
+        if st['events'] > st.get('next', cap):
+            # raise at every further multiple of the cap: the handlers below run a few monitored lines themselves, and code
+            # that swallows the exception (callbacks, broad excepts) must not be able to run on unbounded
+            st['next'] = st['events'] + cap
             raise CapExceeded()
 
     def on_start(code, off):
@@ -59,6 +62,8 @@ def measure(fn, cap):
         for e in (ev.LINE, ev.PY_START, ev.PY_RETURN, ev.PY_UNWIND):
             mon.register_callback(tool, e, None)
         mon.free_tool_id(tool)
+    if st['events'] > cap:
+        outcome = 'cap'       # also when the library turned the interruption into one of its own errors
     return st['events'], st['max'], outcome
 
 
@@ -152,7 +157,7 @@ def run(chk):
     nmut = 1 if chk.tier == 'quick' else 12
     for cls in sorted(vectors, key=sweep.qualname):
         for v in vectors[cls]:
-            for b in [v] + [sweep.mutate(rng, v) for _ in range(nmut)]:
+            for b in [v] + [sweep.mutate(rng, v) for _ in range(nmut)] + sweep.inflate_counts(rng, v, 10 if chk.tier == 'quick' else 400):
                 cap = K_PER_BYTE * len(b) + K_CONST
                 ev, depth, outcome = measure(lambda: cls.parse_immutable(b), cap)
                 evals += 1
@@ -162,6 +167,7 @@ def run(chk):
                 if outcome == 'cap' or depth > MAX_DEPTH or outcome == 'RecursionError':
                     chk.violation('%s: %d line events / depth %d for %d bytes (%s)' % (sweep.qualname(cls), ev, depth, len(b), outcome),
                                   {'class': sweep.qualname(cls), 'input': b.hex(), 'predicate': 'fuzz-bound'}, '%s/fuzz-bound' % sweep.qualname(cls), True)
+    chk.coverage['count_inflation'] = 'every small 1-4 byte number of every vector set to its maximum, data kept / cut / removed (sampled in the quick tier)'
     chk.coverage['evaluations'] = evals
     chk.coverage['distinct_nontrivial'] = len([r for r in table.values() if isinstance(r, list)])
     chk.coverage['shape_measurements'] = {k: (v if isinstance(v, str) else [{'len': a, 'events': b, 'depth': c, 'outcome': d} for a, b, c, d in v]) for k, v in table.items()}
